@@ -70,7 +70,13 @@ func (e *Eng) actAuthorize() {
 		q.Set("audience", strings.Join(aud, " "))
 	}
 	subject := fmt.Sprintf("user-%d", len(e.grants)+1)
-	res := e.w.Authorize(q, h.Consent{Session: h.NewSess(subject), Scopes: append([]string{}, granted...)})
+	sess := h.NewSess(subject)
+	if rapid.IntRange(0, 3).Draw(t, "collidingExtraClaims") == 0 {
+		// custom session claims named like the fields the server reports itself must not override them
+		sess.Extra = map[string]interface{}{"active": false, "client_id": "evil-client", "sub": "evil-subject", "scope": "admin", "aud": []string{"https://evil.example"}, "exp": 1, "iat": 1, "username": "evil", "custom": "kept"}
+		e.label("session-extra-claims-collide")
+	}
+	res := e.w.Authorize(q, h.Consent{Session: sess, Scopes: append([]string{}, granted...)})
 	e.step("authorize:" + rtype)
 	if !res.Err.OK() || (res.Code == "" && res.Access == "") {
 		e.logf("authorize client=%s type=%q scopes=%q -> %v (not asserted here)", client, rtype, scopes, res.Err)
